@@ -82,6 +82,19 @@ end Ring
 
 /-! ## RMSD as a trace -/
 
+theorem foldl_M3add (l : List (M3 ℚ)) (acc : M3 ℚ) :
+    l.foldl M3.add acc = acc.add (l.foldl M3.add M3.zero) := by
+  induction l generalizing acc with
+  | nil =>
+    simp only [List.foldl_nil, M3.add, V3.add, M3.zero, V3.zero, add_zero]
+  | cons A l ih =>
+    simp only [List.foldl_cons]
+    rw [ih (acc.add A), ih (M3.zero.add A)]
+    simp only [M3.add, V3.add, M3.zero, V3.zero, M3.mk.injEq, V3.mk.injEq]
+    refine ⟨⟨?_, ?_, ?_⟩, ⟨?_, ?_, ?_⟩, ⟨?_, ?_, ?_⟩⟩ <;> ring
+
+
+
 theorem inner_foldl (R : M3 ℚ) (l : List (M3 ℚ)) (acc : M3 ℚ) :
     R.inner (l.foldl M3.add acc) = R.inner acc + (l.map R.inner).sum := by
   induction l generalizing acc with
